@@ -548,6 +548,10 @@ def replay(cand):
                 if seps.max() > rad + tol:
                     return {"reproduced": True, "key": "randcap:outside:%s" % ("rot" if (dorot or abs(dec) >= 89.9) else "direct"),
                             "what": "randcap(%r, %r, %r, dorot=%s): a point lies %r degrees from the centre" % (ra, dec, rad, dorot, seps.max())}
+                # the supplied generator is the only source of randomness: equal seeds give equal points
+                res2 = co.randcap(300, ra, dec, rad, get_radius=True, dorot=dorot, rng=np.random.RandomState(seed))
+                if not (np.array_equal(res2[0], rra) and np.array_equal(res2[1], rdec)):
+                    return {"reproduced": True, "key": "randcap:rng-ignored", "what": "randcap(300, %r, %r, %r, dorot=%s) with two equally seeded generators returns different points: the supplied rng is not the source of the deviates" % (ra, dec, rad, dorot)}
                 if np.max(np.abs(seps - rr)) > tol + 1e-4 * rad:
                     return {"reproduced": True, "key": "randcap:radius:%s" % ("rot" if (dorot or abs(dec) >= 89.9) else "direct"),
                             "what": "randcap(%r, %r, %r, get_radius=True, dorot=%s): returned radii differ from the true separations by up to %r degrees (e.g. %r vs %r)"
